@@ -1,7 +1,7 @@
 //! `Expr`, `LogicalPlan` and the `*_with_subqueries` family.
 
 use super::super::{
-    cb, finish_real, from_tnr, judge, maybe_corrupt, pk, reference, Api, Chg, Ctl, Outcome, Policy, EMPTY_TRAILING,
+    cb, finish_real, from_tnr, judge_opt, maybe_corrupt, pk, reference, Api, Chg, Ctl, Outcome, Policy, EMPTY_TRAILING,
     RealRes, Rec, Report, Subject, DOWN, UP,
 };
 use super::generic_case;
@@ -333,7 +333,7 @@ impl Subject for Expr {
     fn fresh_leaf(&self, salt: u64) -> Self {
         lit(7_000_000_000i64 + (salt % 1_000_000_000) as i64)
     }
-    fn known_jump_loss(&self, after_kid: usize, n_kids: usize) -> Option<&'static str> {
+    fn known_jump_loss(&self, after_kid: usize, n_kids: usize) -> Option<(&'static str, usize)> {
         if after_kid + 1 != n_kids {
             return None;
         }
@@ -346,7 +346,7 @@ impl Subject for Expr {
             Expr::GroupingSet(GroupingSet::GroupingSets(vv)) => vv.last().is_some_and(|v| v.is_empty()),
             _ => false,
         };
-        empty_tail.then_some(EMPTY_TRAILING)
+        empty_tail.then_some((EMPTY_TRAILING, 0))
     }
 }
 
@@ -787,15 +787,22 @@ impl Subject for LogicalPlan {
 // LogicalPlan with the subquery plans of its expressions as additional (leading) children
 // ---------------------------------------------------------------------------------------
 
-fn collect_subq(e: &Expr, out: &mut Vec<Subquery>) {
+/// subquery plans of an expression in pre-order, each with the number of subqueries nested below
+/// the expression node that holds it
+fn collect_subq(e: &Expr, out: &mut Vec<(Subquery, usize)>) {
+    let at = out.len();
     match e {
-        Expr::Exists(x) => out.push(x.subquery.clone()),
-        Expr::InSubquery(x) => out.push(x.subquery.clone()),
-        Expr::ScalarSubquery(s) => out.push(s.clone()),
+        Expr::Exists(x) => out.push((x.subquery.clone(), 0)),
+        Expr::InSubquery(x) => out.push((x.subquery.clone(), 0)),
+        Expr::ScalarSubquery(s) => out.push((s.clone(), 0)),
         _ => {}
     }
+    let own = out.len() > at;
     for k in expr_kids(e) {
         collect_subq(&k, out);
+    }
+    if own {
+        out[at].1 = out.len() - at - 1;
     }
 }
 
@@ -832,13 +839,19 @@ pub struct SubqPlan {
 }
 
 impl SubqPlan {
-    fn subqueries(&self) -> Vec<Subquery> {
+    fn subqueries_with_nested(&self) -> Vec<(Subquery, usize)> {
         let mut out = vec![];
         let mut p = self.plan.clone();
         for e in plan_exprs_mut(&mut p) {
             collect_subq(e, &mut out);
         }
         out
+    }
+    fn subqueries(&self) -> Vec<Subquery> {
+        self.subqueries_with_nested().into_iter().map(|x| x.0).collect()
+    }
+    fn subqueries_nested(&self) -> Vec<usize> {
+        self.subqueries_with_nested().into_iter().map(|x| x.1).collect()
     }
 }
 
@@ -884,9 +897,12 @@ impl Subject for SubqPlan {
     fn fresh_leaf(&self, salt: u64) -> Self {
         SubqPlan { plan: plan_fresh_leaf(&self.plan, salt), inputs: self.inputs }
     }
-    fn known_jump_loss(&self, after_kid: usize, _n_kids: usize) -> Option<&'static str> {
-        // a Jump answered for a subquery plan is consumed by the expression walk that found it
-        (after_kid < self.subqueries().len()).then_some(SUBQ_JUMP)
+    fn known_jump_loss(&self, after_kid: usize, _n_kids: usize) -> Option<(&'static str, usize)> {
+        // a Jump answered for a subquery plan is consumed by the walk over the expression that holds
+        // it: it prunes the children of that expression node (the subqueries nested in the tested
+        // expression of `x IN (subquery)`) and is forgotten afterwards
+        let nested = self.subqueries_nested();
+        nested.get(after_kid).map(|n| (SUBQ_JUMP, *n))
     }
 }
 
@@ -1030,7 +1046,9 @@ pub fn subq_case(rep: &Report, rng: &mut Rng, i: u64, pseed: u64) {
     match got {
         Ok(mut got) => {
             maybe_corrupt(&mut got);
-            judge(rep, api, name, ty, &input, &exp, &got, || Policy::Hash { seed: pseed, class });
+            // the value returned by the non-recursive helpers apply_subqueries / map_subqueries is
+            // not documented: not asserted
+            judge_opt(rep, api, name, ty, &input, &exp, &got, || Policy::Hash { seed: pseed, class }, !inputs);
         }
         Err(p) => rep.violation(&format!("panic/{name}/{ty}"), json!({"type": ty, "api": name, "input_tree": input.show(), "policy_seed": pseed, "panic": p, "expected_by_contract": exp.to_json()})),
     }
